@@ -44,8 +44,19 @@ def leaf(rng, labs, allow=("label", "var", "dict", "model")):
         x[(l,)] = 0
         x[()] = 1
         return x, (lambda a: 1), "inplace{1}"
-    T = rng.choice([L.PUBO, L.PCBO])
     l2 = rng.choice(labs)
+    if rng.random() < 0.3:
+        # a "clause object": a PCBO that RECORDS a logical constraint (weight 1): its value is 1 exactly where the clause fails
+        how3 = rng.choice(["OR", "AND", "NOT", "NAND"])
+        C_ = L.PCBO()
+        if how3 == "NOT":
+            C_.add_constraint_NOT(l)
+            return C_, (lambda x, l=l: x[l]), "PCBO().add_constraint_NOT(%r)" % (l,)
+        getattr(C_, "add_constraint_" + how3)(l, l2)
+        f3 = {"OR": (lambda x, l=l, l2=l2: int(not (x[l] or x[l2]))), "AND": (lambda x, l=l, l2=l2: int(not (x[l] and x[l2]))),
+              "NAND": (lambda x, l=l, l2=l2: int(bool(x[l] and x[l2])))}[how3]
+        return C_, f3, "PCBO().add_constraint_%s(%r, %r)" % (how3, l, l2)
+    T = rng.choice([L.PUBO, L.PCBO])
     return T({(l, l2): 1}), (lambda x, l=l, l2=l2: x[l] * x[l2]), "%s{%r*%r}" % (T.__name__, l, l2)
 
 
